@@ -27,7 +27,7 @@ def main():
   try:
     build = core.lean_build(mod.LEAN_TARGETS, audit_file=f'MM/Audit/{prop}.lean',
                             expected_theorems=mod.THEOREMS)
-    model_ok = build.ok
+    model_ok = build.model_ok
     # a broken proof or fragment deepens the search for a failing input
     intensify = not build.proof_ok
     if args.replay:
@@ -35,7 +35,12 @@ def main():
     else:
       # the quick tier is deepened (where a module supports it), never replaced by the much longer thorough tier:
       # a registered check must stay bounded in time
-      kw = {'deepen': True} if (intensify and getattr(mod, 'SUPPORTS_DEEPEN', False)) else {}
+      import translate
+      changed = translate.changed_hashes()
+      if changed:
+        out.extra['hand_modelled_functions_changed'] = changed[:20]
+      # a changed hand-modelled function deserves a deeper differential run; by itself it is not a violation
+      kw = {'deepen': True} if ((intensify or changed) and getattr(mod, 'SUPPORTS_DEEPEN', False)) else {}
       mod.run(out, tier=args.tier, model_ok=model_ok, **kw)
   except core.DriverError as e:
     out.mismatch('driver', None, 'model driver failed: ' + str(e)[-300:])
